@@ -794,22 +794,34 @@ def check_property(impl: Impl, scen: dict, events=None, isolation=True, iso_limi
     return None
 
 
-def shrink(impl: Impl, v: dict):
+def shrink(impl: Impl, v: dict, budget=700):
+    """delta debugging on the event list: drop chunks (halves, quarters, ... single events) while a failure
+    of the same class remains; isolation re-runs only when the failing clause is an isolation clause"""
     scen = v["scenario"]
     cls = v["class"]
-    changed = True
-    budget = 200
-    while changed and budget > 0:
-        changed = False
-        for i in range(len(scen["events"]) - 1, -1, -1):
+    iso = v["clause"].startswith("discarding")
+
+    def still(s2):
+        w = check_property(impl, s2, isolation=iso)
+        return w if (w is not None and w["class"] == cls) else None
+
+    n = len(scen["events"])
+    chunk = max(1, n // 2)
+    while chunk >= 1 and budget > 0:
+        i = 0
+        progressed = False
+        while i < len(scen["events"]) and budget > 0:
+            s2 = dict(scen)
+            s2["events"] = scen["events"][:i] + scen["events"][i + chunk:]
             budget -= 1
-            if budget <= 0:
-                break
-            s2 = _strip(scen, i)
-            w = check_property(impl, s2)
-            if w is not None and w["class"] == cls:
-                scen, v, changed = s2, w, True
-                break
+            w = still(s2)
+            if w is not None:
+                scen, v, progressed = s2, w, True
+            else:
+                i += chunk
+        if chunk == 1 and not progressed:
+            break
+        chunk = chunk // 2 if chunk > 1 else (1 if progressed else 0)
     return v
 
 
@@ -1186,6 +1198,84 @@ def exhaustive_scenarios(ctx, impl: Impl, depth: int):
             yield "/".join(k for k, _, _ in seq), sc
 
 
+SCALE_NS = (8, 16, 32, 63, 64, 65, 100, 128, 256, 300, 1024)
+
+
+def scale_scenarios(ctx, impl: Impl, P: "Payloads"):
+    """Linear-size families that reach size-dependent behaviour of the routing state (caps, evictions, counters):
+    (a) fan-out: after the handshakes an association sends SOCKS datagrams to N distinct destinations it has no
+        circuit with (valid messages, undecodable payloads, UseCircuitCode for unknown regions, domain form),
+        N around powers of two and round numbers, and after every stray the first-learnt, a middle and the
+        last-learnt open circuit each deliver a simulator->viewer datagram (and now and then the viewer talks back);
+    (b) many regions: 20 regions in one session, all opened, traffic on each in both directions, then strays;
+    (c) one circuit, 1000 datagrams of repeated traffic with increasing packet ids in both directions."""
+    rng = ctx.rng
+    V = (ip2n("192.168.1.20"), 51234)
+    SID = 0x5ca1e
+
+    def base(nreg):
+        regs = [[ip2n("10.1.%d.%d" % (k // 200, 3 + k % 200)), 13000 + k] for k in range(nreg)]
+        return {"sessions": [{"sid": SID, "regions": regs}], "protos": [{"client": list(V)}]}, [tuple(r) for r in regs]
+
+    def ev(src, data):
+        return {"p": 0, "src": list(src), "data": hx(data)}
+
+    in_pool = [P.chat_in() for _ in range(4)] + [P.filled("CompletePingCheck"), P.filled("SimStats"),
+                                                 P.packet_ack(2), P.ping()]
+    out_pool = [P.chat_out() for _ in range(3)] + [P.filled("AgentUpdate", flags=0x80), P.packet_ack(1)]
+    stray_valid = P.chat_out()
+    stray_ucc = P.ucc(SID)
+
+    def stray(k):
+        dst = (ip2n("10.8.%d.%d" % (k // 250, 1 + k % 250)), 9000 + (k % 7))
+        kind = k % 5
+        if kind in (0, 1):
+            return ev(V, socks_hdr(dst) + stray_valid)                       # no circuit for that host
+        if kind == 2:
+            return ev(V, socks_hdr(dst) + b"\x00\x01\x02")                    # undecodable
+        if kind == 3:
+            return ev(V, socks_hdr(dst) + stray_ucc)                         # UseCircuitCode, no such region
+        dom = b"h%d.example" % k
+        return ev(V, b"\x00\x00\x00\x03" + bytes([len(dom)]) + dom + b"\x23\x28" + stray_valid)   # domain form
+
+    for n in SCALE_NS:
+        nreg = 3 if n != 100 else 5
+        sc, regs = base(nreg)
+        events = [ev(V, socks_hdr(r) + P.ucc(SID)) for r in regs]
+        probes = [regs[0], regs[len(regs) // 2], regs[-1]]
+        for k in range(n):
+            events.append(stray(k))
+            for j, r in enumerate(probes):
+                events.append(ev(r, in_pool[(k + j) % len(in_pool)]))
+            if k % 8 == 7:
+                events.append(ev(V, socks_hdr(probes[k % 3]) + out_pool[k % len(out_pool)]))
+        sc["events"] = events
+        yield "scale:fanout:%d" % n, sc
+    # (b) many regions
+    sc, regs = base(20)
+    events = [ev(V, socks_hdr(r) + P.ucc(SID)) for r in regs]
+    for rnd in range(3):
+        for j, r in enumerate(regs):
+            events.append(ev(V, socks_hdr(r) + out_pool[(rnd + j) % len(out_pool)]))
+            events.append(ev(r, in_pool[(rnd + j) % len(in_pool)]))
+        for k in range(25):
+            events.append(stray(100 * rnd + k))
+            events.append(ev(regs[(k * 7) % 20], in_pool[k % len(in_pool)]))
+    sc["events"] = events
+    yield "scale:regions:20", sc
+    # (c) one circuit, long history
+    sc, regs = base(1)
+    S = regs[0]
+    events = [ev(V, socks_hdr(S) + P.ucc(SID))]
+    for k in range(ctx.pick(1000, 3000)):
+        if k % 2 == 0:
+            events.append(ev(V, socks_hdr(S) + (P.chat_out() if k % 10 else P.packet_ack(1 + k % 3))))
+        else:
+            events.append(ev(S, P.chat_in() if k % 10 != 1 else P.ping()))
+    sc["events"] = events
+    yield "scale:long:%d" % (len(events) - 1), sc
+
+
 # ---------------------------------------------------------------------------------------
 # framework entry points
 
@@ -1553,7 +1643,7 @@ def correspond(ctx):
         exh.samples = [{"tag": t, "events": len(sc["events"])} for t, sc in batch[500:503]]
         exh.impl_violations.sort(key=lambda v: v.get("class") in (POISON_CLASS, RLV_CLASS))
         out.append(exh)
-        nrand = ctx.pick(1200, 8000)
+        nrand = ctx.pick(1000, 8000)
         done = 0
         while done < nrand:
             chunk = min(500, nrand - done)
@@ -1570,6 +1660,25 @@ def correspond(ctx):
         # findings already reported for the unchanged tree go last, so that a new failure is what gets replayed
         res.impl_violations.sort(key=lambda v: v.get("class") in (POISON_CLASS, RLV_CLASS))
         out.append(res)
+        # ---- size-dependent behaviour of the routing state
+        sc_res = CorrResult(suite="routing, size-dependent state: real protocol vs extracted model",
+                            rule="linear-size scenarios: fan-out to N distinct stray destinations for N in %s with "
+                                 "simulator->viewer traffic from the first-learnt, a middle and the last-learnt open circuit "
+                                 "after every stray; 20 regions with all circuits open; %d datagrams of repeated traffic on "
+                                 "one circuit; same comparison (the model's far_to_near map is unbounded) and impl-level "
+                                 "oracle as the other routing suites; non-trivial = at least one datagram forwarded"
+                                 % (list(SCALE_NS), ctx.pick(1000, 3000)))
+        sdist, svio = {}, {}
+        batch = list(scale_scenarios(ctx, impl, P))
+        sc_res.distinct_nontrivial = _run_batch(ctx, impl, batch, sc_res, sdist, svio, 1)
+        sc_res.evaluations = len(batch)
+        sc_res.distribution = {"event_outcomes": sdist, "impl_violation_classes": svio,
+                               "events_per_scenario": {t: len(sc["events"]) for t, sc in batch}}
+        sc_res.samples = [{"tag": t, "events": len(sc["events"])} for t, sc in batch[:3]]
+        # a disagreement record carries its scenario; keep only the smallest ones
+        sc_res.disagreements.sort(key=lambda d: len(d.get("scenario", {}).get("events", [])))
+        del sc_res.disagreements[3:]
+        out.append(sc_res)
         out.append(correspond_c06b(ctx))
         return out
     finally:
@@ -1595,6 +1704,10 @@ def search(ctx, hints):
             if v:
                 return shrink(impl, v)
         P = Payloads(impl, ctx.rng, all_types=False)
+        for tag, sc in scale_scenarios(ctx, impl, P):
+            v = check_property(impl, sc, iso_limit=1, rng=ctx.rng)
+            if v:
+                return shrink(impl, v)
         for _ in range(ctx.pick(1500, 10000)):
             v = check_property(impl, gen_scenario(ctx, impl, P, 12), iso_limit=2, rng=ctx.rng)
             if v:
